@@ -895,6 +895,29 @@ pub fn set_latency(conn: &ConnRef, side: Side, min_ns: u64, max_ns: u64) {
     p.lat_max = max_ns.max(min_ns);
 }
 
+/// Harness control: put raw bytes on the wire as if `side` had written them (ignores the
+/// send-buffer capacity; used to send bytes no well-behaved endpoint would produce).
+pub fn inject_bytes(conn: &ConnRef, side: Side, bytes: &[u8]) {
+    let now = kernel::now_ns();
+    let (res_r, rw);
+    {
+        let mut c = lockc(conn);
+        let p = c.out_pipe(side);
+        if p.reader_gone || p.reset || p.fin {
+            return;
+        }
+        let at = (now + p.lat_min).max(p.last_deliver_at);
+        p.last_deliver_at = at;
+        p.inflight.push_back((at, bytes.to_vec()));
+        p.buffered += bytes.len();
+        p.total_written += bytes.len() as u64;
+        res_r = p.res_r;
+        rw = p.read_waker.take();
+    }
+    kernel::count("fault.raw_bytes_injected");
+    wake(res_r, rw);
+}
+
 /// Bytes written by `side` that its peer has not consumed yet.
 pub fn unread_bytes(conn: &ConnRef, side: Side) -> usize {
     let mut c = lockc(conn);
